@@ -67,6 +67,11 @@ func (vc *VC) evalArgs(st *State, call *ast.CallExpr, sig *types.Signature) []*V
 }
 
 func (vc *VC) evalCall(st *State, call *ast.CallExpr) []*Value {
+	if vc.inlineDepth == 0 {
+		saved := vc.curCall
+		vc.curCall = call
+		defer func() { vc.curCall = saved }()
+	}
 	// conversion?
 	if tv, ok := vc.curInfo.Types[call.Fun]; ok && tv.IsType() {
 		return []*Value{vc.evalConversion(st, call, tv.Type)}
@@ -265,6 +270,10 @@ func (vc *VC) callFunc(st *State, call *ast.CallExpr, callee *types.Func, sig *t
 	if recv != nil && isInterface(recvT) {
 		if pkgPath == "context" {
 			return vc.havocResults(st, origin.Name(), sig)
+		}
+		if rs, ok := vc.dispatch(st, call, origin, sig, recv, args); ok {
+			vc.havocCaptured(st, args)
+			return rs
 		}
 		vc.uncontracted[full+" (interface method)"] = true
 		vc.havocAllHeap(st)
